@@ -4,6 +4,7 @@ pub mod funcs;
 pub mod gen;
 pub mod jetty;
 pub mod model;
+pub mod program;
 pub mod rng;
 pub mod taylor;
 pub mod track;
@@ -11,7 +12,7 @@ pub mod zoo;
 
 pub use basis::{Basis, Kind, Shape};
 pub use jetty::*;
-pub use model::{Dyadic, Jet, Sc};
+pub use model::{Dyadic, Jet, Rat, Sc};
 pub use rng::Rng;
 pub use taylor::Func;
 
